@@ -525,6 +525,9 @@ func (comp *Compiler) Compile(stmts []*gripql.GraphStatement, opts *gdbi.Compile
 			if lastType != gdbi.VertexData && lastType != gdbi.EdgeData {
 				return &Pipeline{}, fmt.Errorf(`"has" statement is only valid for edge or vertex types not: %s`, lastType.String())
 			}
+			if stmt.Has == nil {
+				return &Pipeline{}, fmt.Errorf(`"has" statement has no expression`)
+			}
 			whereExpr := convertHasExpression(stmt.Has, false)
 			matchStmt := bson.D{primitive.E{Key: "$match", Value: whereExpr}}
 			query = append(query, matchStmt)
